@@ -8,7 +8,7 @@ import TrompModel.Model.CxxBase
 import TrompModel.Model.Range
 namespace Tromp.Cxx
 
-/-- `impl::starts_with_range_checker::operator()` — translated from include/trompeloeil/matcher/range.hpp:658 -/
+/-- `impl::starts_with_range_checker::operator()` — translated from include/trompeloeil/matcher/range.hpp:665 -/
 def starts_with_range {α μ : Type} (accepts : μ → α → Bool) (range : List α) (elements : List μ) : Bool := Id.run do
   let result := Range.mismatch (fun (c : μ) (t : α) => accepts c t) range elements
   return result.2.isEmpty
